@@ -191,7 +191,7 @@ func (e *engine) trackerCase(le *logrus.Entry, local *key, remoteStr string, rem
 }
 
 func (e *engine) runC26() {
-	e.rep.Rule = "WebRTC signaling: request_offer / sdp / ice / empty signals (boundary uint64, non-UTF-8 strings, up to 2.5 KB SDP, plus SDPs of 4 KiB / 16 KiB / 64 KiB ± {64,40,17,1,0,1,24} bytes (thorough: 1 KiB … 1 MiB)) through EncodeWebRtcSignal (ciphertext equal to the model's) and DecodeWebRtcSignal with the right key, two wrong keys, payloads encrypted under another context, the signal ciphertext decrypted under another context, bit flips, truncation, random bytes; WebRtcSignal.UnmarshalVT vs the model on valid, concatenated (oneof switching / merging), duplicated, truncated, bit-flipped, unknown-field, wrong-wire-type, length-lying and random streams; isOfferer on real peer ID pairs and adversarial strings (equal, prefix, common prefix, high bytes, empty); newSessionTracker role / link peer / signal key for both ends; distinct = distinct op line"
+	e.rep.Rule = "WebRTC signaling: request_offer / sdp / ice / empty signals (boundary uint64, non-UTF-8 strings, up to 2.5 KB SDP, plus SDPs of 4 KiB / 16 KiB / 64 KiB ± {64,40,17,1,0,1,24} bytes (thorough: 1 KiB … 1 MiB)) through EncodeWebRtcSignal (ciphertext equal to the model's) and DecodeWebRtcSignal with the right key, two wrong keys, payloads encrypted under another context, the signal ciphertext decrypted under another context, bit flips, truncation, random bytes; WebRtcSignal.UnmarshalVT vs the model on valid, concatenated (oneof switching / merging), duplicated, truncated, bit-flipped, unknown-field, wrong-wire-type, length-lying and random streams; isOfferer on real peer ID pairs and adversarial strings (equal, prefix, common prefix, high bytes, empty); newSessionTracker role / link peer / signal key for both ends; on real transports with a block list: the incoming signal handler offered sessions of signaled / new / blocked / own / foreign-local peers and other signaling IDs (which tracker receives, the incomingSessions table while serving and after the resolver returned, tracker table restored), DialPeer of known / new / blocked / own / malformed peer IDs (tracker waited on, nothing left behind), DialPeer next to the link routine (returns exactly the link its session established; nothing for an impostor), GetPeerDialer under AllPeers / Dialers / block-list configurations, and the local peer / transport UUID every established link reports; distinct = distinct op line"
 	e.rep.Require("encode.ok", "encode.big", "decode.ok", "decode.err", "unmarshal.err", "unmarshal.req", "unmarshal.sdp", "unmarshal.ice", "unmarshal.none", "offerer.ok1", "offerer.ok0", "tracker.valid", "tracker.unparsable", "tracker.nokey")
 	le := logrus.NewEntry(logrus.New())
 	keys := []*key{e.newKey(), e.newKey(), e.newKey()}
